@@ -5,3 +5,22 @@ package bfe_tls
 // Thin exports for the /verif harness (add-only, no logic).
 
 func VerifRemovePadding(payload []byte) ([]byte, byte) { return removePadding(payload) }
+
+// VerifCBCDecrypt feeds one protected record to the record layer's read half
+// (halfConn.decrypt) keyed for the CBC suite suiteID at the given protocol version, as
+// the handshake would have set it up. It returns the verdict and the plaintext.
+func VerifCBCDecrypt(version, suiteID uint16, key, iv, macKey []byte, seq [8]byte, record []byte) (ok bool, plaintext []byte) {
+	for _, s := range cipherSuites {
+		if s.id != suiteID {
+			continue
+		}
+		hc := &halfConn{version: version, cipher: s.cipher(key, iv, true), mac: s.mac(version, macKey), seq: seq}
+		b := &block{data: append([]byte(nil), record...)}
+		ok, prefixLen, _ := hc.decrypt(b)
+		if !ok {
+			return false, nil
+		}
+		return true, b.data[prefixLen:]
+	}
+	panic("verif: unknown cipher suite")
+}
